@@ -51,6 +51,10 @@ func caseRepoHistory(r *rng.R, n int) string {
 	defer os.RemoveAll(dir)
 	repo, _ := verifier.NewCaseRepo(dir, "; default driver\n")
 	names := []string{"a", "b", "c", "x"}
+	if r.Chance(35) {
+		// dotted and otherwise unusual case names
+		names = []string{"a", "a.v2", "b", "a.b", "x"}
+	}
 	drivers := []string{"a.a", "b.a", "shared.a", "x.lua", "a.lua", "c.json", "lib.a"}
 	var ops, outs []string
 	// optionally plant files
@@ -59,8 +63,8 @@ func caseRepoHistory(r *rng.R, n int) string {
 		ops = append(ops, "plantbad:junk.json")
 		outs = append(outs, "ok|"+dirListing(dir))
 	}
-	if r.Chance(30) {
-		f := []string{"notes.txt", "shared.a", "lib.a", "x.lua"}[r.Intn(4)]
+	for r.Chance(45) {
+		f := []string{"notes.txt", "shared.a", "lib.a", "x.lua", "a.a", "b.a", "b.lua", "a.v2.a", "x.a"}[r.Intn(9)]
 		os.WriteFile(filepath.Join(dir, f), []byte("text"), 0600)
 		ops = append(ops, "plant:"+f)
 		outs = append(outs, "ok|"+dirListing(dir))
